@@ -7,7 +7,7 @@ import numpy as np
 from vlib.common import Check, assert_repo, rng_for
 
 EPS = np.finfo(float).eps
-CLASSES = ["smooth", "ties", "leading_inf", "tiny_range", "huge_range", "plateau_spike", "offset", "linear"]
+CLASSES = ["smooth", "ties", "leading_inf", "tiny_range", "huge_range", "plateau_spike", "offset", "linear", "mass_spread"]
 NLIVES = [1, 2, 3, 10, 100, 2000]
 SHIFTS = [1.0, -1.0, 1e3, -1e3, 1e5, -1e5]
 
@@ -42,6 +42,18 @@ def gen_case(seed, n, quick):
         x[-k:] += np.sort(rng.exponential(50, k))
     elif cls == "offset":
         x = np.sort(rng.normal(0, 2, N)) + rng.choice([1e3, -1e3, 9e4, -9e4])
+    elif cls == "mass_spread":
+        # likelihood rising about as fast as the prior volume shrinks: L*dX stays comparable over a dynamic range far beyond exp(745), so low-likelihood
+        # points carry real evidence mass (an implementation that exponentiates relative to the global maximum underflows them)
+        nlive = int(rng.choice([1, 2, 3, 5]))
+        N = int(rng.integers(1800, 2600)) if quick else int(rng.integers(3000, 6000))
+        sched = ["const_closing", "const", "varying"][int(rng.integers(3))]
+        rate = rng.uniform(0.6, 0.98) / nlive
+        x = np.cumsum(rng.uniform(0.5, 1.5, N)) * rate + rng.normal(0, 3)
+        if rng.random() < 0.5:   # a faster rise first, then the slow one
+            k = N // 6
+            x[:k] = x[:k] * 2.5 - x[k - 1] * 1.5
+            x = np.sort(x)
     else:
         x = np.linspace(-rng.uniform(1, 100), rng.uniform(0, 100), N)
     x = np.clip(x, -1e5, 1e5, out=x.copy()) if cls != "leading_inf" else np.where(np.isinf(x), x, np.clip(x, -1e5, 1e5))
@@ -110,7 +122,11 @@ def check_sequence(c):
             probs.append(("log_vols not strictly decreasing",))
         if not np.all(np.isfinite(lv)):
             probs.append(("log_vols non-finite",))
-        lpw = st.log_posterior_weights
+        lpw = np.array(st.log_posterior_weights, copy=True)
+        _ = st.effective_n_posterior_samples          # reading a summary must not change what the weights accessor returns afterwards
+        lpw_again = st.log_posterior_weights
+        if not np.array_equal(lpw, lpw_again, equal_nan=True):
+            probs.append(("weights-change-after-reading-effective-sample-size", float(np.nanmax(np.abs(lpw - lpw_again)))))
         zfin = st.finalise()
         events += 1
         if zfin != st.logZ or not close(zfin, ref["logZ_trap"], ztol(zfin)):
